@@ -53,7 +53,7 @@ def shard(binpath, seed, sh, ndocs, rsa_share):
         if rng.random() < 0.02:
             pool = ["rsa-4096-a", "rsa-3072-a"]
         signers = rng.sample(pool, rng.choice([1, 1, 2, 3]) if len(pool) > 2 else 1)
-        via = rng.choice(["new", "builder", "raw_builder", "api", "api_builder"])
+        via = rng.choice(["new", "builder", "raw_builder", "raw_builder_pretty", "api", "api_builder"])
         reqs.append({"op": "sign", "signed": doc, "signers": signers, "via": via, "writers": True})
         plans.append((doc, signers, via))
     sobs = common.run_batch(binpath, reqs)
@@ -144,10 +144,10 @@ def main(ctx):
         PROP, ctx.tier, ctx.seed, res, t0=ctx.t0,
         rule="random layouts/links with hostile text in every string field (LF, CR, TAB, C0 controls, DEL, "
              "backslash, quote, backslash-n, U+2028, non-BMP, long, empty) x key types x 1-3 signers x "
-             "{constructor, builder, raw builder} x {serde compact, serde pretty, Json writer, JsonPretty writer}; "
+             "{constructor, builder, raw builder over compact / pretty bytes, public-API-built values} x {serde compact, serde pretty, Json writer, JsonPretty writer}; "
              "negatives: other key, bit flips, other PSS scheme; every case is non-trivial; distinct by SHA-256 of wire text",
         assumptions=["ring's primitives are correct", "serde_json is the wire reader"],
-        required=["positive_verified", "via:new", "via:builder", "via:raw_builder", "via:api", "via:api_builder", "writer:pretty", "writer:cjson",
+        required=["positive_verified", "via:new", "via:builder", "via:raw_builder", "via:raw_builder_pretty", "via:api", "via:api_builder", "writer:pretty", "writer:cjson",
                   "writer:cjson_pretty", "keys:ed", "keys:ec", "keys:rsa", "doc:link", "doc:layout",
                   "neg:one signature bit was flipped", "neg:verified under a different key",
                   "neg:the same RSA key material was declared with the other PSS scheme",
